@@ -178,6 +178,13 @@ class Check:
         os.makedirs(evdir, exist_ok=True)
         with open(os.path.join(evdir, "%s.json" % self.pid), "w") as fh:
             json.dump(ev, fh, indent=1, default=str)
+        try:
+            self._emit(out, wall)
+        except BrokenPipeError:
+            pass
+        return rc
+
+    def _emit(self, out, wall):
         print("check %s tier=%s: %d units, %d functions, %d obligations (%d discharged), %d violations, %d known, "
               "%d undecided, %.1fs" % (self.pid, self.tier, len(set(self.units)), len(self.functions), self.obligations,
                                        self.discharged, len(self.viol), len(self.known_hits), len(self.undecided), wall))
@@ -186,7 +193,6 @@ class Check:
         for l in out:
             print(l)
         sys.stdout.flush()
-        return rc
 
 
 def run(main, pid):
@@ -202,6 +208,13 @@ def run(main, pid):
         rc = 2
     except Exception:
         traceback.print_exc()
-        print("ANALYSIS-BROKEN property=%s checker crashed (see traceback)" % pid)
+        try:
+            print("ANALYSIS-BROKEN property=%s checker crashed (see traceback)" % pid)
+        except BrokenPipeError:
+            pass
         rc = 2
+    try:
+        sys.stdout.flush()
+    except BrokenPipeError:
+        pass
     sys.exit(rc)
